@@ -867,6 +867,12 @@ func runSchedule(tr *hx.Trace, idx int, kinds map[int]string, sd schedule, watch
 				s.settle(t, func() bool { return sc.threadDone(t) || sc.opOf(t) != "accept" }, stepTimeout)
 				break
 			}
+			if gate != "C1w" && s.waitParked(t, stepTimeout/4, "C1w", gate) == "C1w" {
+				// a schedule of a model variant without the wait of Close for the calls in flight (pinned code): the real
+				// Close passes through it by itself
+				s.release(t)
+				s.settle(t, func() bool { return sc.threadDone(t) }, stepTimeout)
+			}
 			if got := s.waitParked(t, stepTimeout, gate); got == "" {
 				diverged = fmt.Sprintf("step %d: thread %d not parked at %s (at %q, op %q)", si, t, gate, s.parkedAt(t), sc.opOf(t))
 			} else {
